@@ -212,11 +212,13 @@ def main():
     for n in ((0, 1, 2) if q else (0, 1, 2, 3)): cases.append(dict(kind='string', n=n))
     for v in (0, -1, 2 ** 127 - 1, -(2 ** 127), 10 ** 20): cases.append(dict(kind='i128-const', value=v))
     for n in ((0, 1, 2) if q else (0, 1, 2, 3)):
-        for ty in (('i64', 'u16') if q else ('i8', 'i16', 'i32', 'i64', 'i128', 'u16', 'u32', 'u64', 'u128')): cases.append(dict(kind='arr-int', ty=ty, n=n))
+        for ty in (('i64', 'u16') if q else ('i8', 'i16', 'i32', 'i64', 'i128', 'u16', 'u32', 'u64', 'u128')):
+            if n == 3 and ty != 'i64': continue
+            cases.append(dict(kind='arr-int', ty=ty, n=n))
         cases.append(dict(kind='arr-bool', n=n))
         for sl in (0, 1): cases.append(dict(kind='arr-string', n=n, slen=sl))
     chk.bounds = {'cases': cases}
-    results = chk.run_cases(case, cases, label='to_json_string -> parse_as_properties', case_timeout=600)
+    results = chk.run_cases(case, cases, label='to_json_string -> parse_as_properties', case_timeout=600 if q else 2400)
     chk.extra['compared'] = sum(r.get('compared', 0) for r in results)
 
     def replay(v):
